@@ -284,6 +284,21 @@ XMLScanner::~XMLScanner()
     cleanUp();
 }
 
+void XMLScanner::countEntityExpansion()
+{
+    if(fSecurityManager != 0 && ++fEntityExpansionCount > fEntityExpansionLimit) {
+        XMLCh expLimStr[32];
+        XMLString::sizeToText(fEntityExpansionLimit, expLimStr, 31, 10, fMemoryManager);
+        emitError
+        (
+            XMLErrs::EntityExpansionLimitExceeded
+            , expLimStr
+        );
+        // there seems nothing  better to be done than to reset the entity expansion counter
+        fEntityExpansionCount = 0;
+    }
+}
+
 void XMLScanner::resetCachedGrammar ()
 {
 }
